@@ -70,9 +70,23 @@ def parseExpr (t : String) : Option Expr :=
     | _ => none
   | _ => none
 
+/-- `K<r>x<c>/<name>` / `K0/<name>`: a define annotated with the kind and shape the case expects `name` to hold -/
+def parseAnnotated (e : String) : Option (String × Nat × Nat) :=
+  if !e.startsWith "K" then none else
+  match (e.drop 1).toString.splitOn "/" with
+  | [shape, name] =>
+    if shape == "0" then some (name, 0, 0) else
+    (match shape.splitOn "x" with
+     | [r, c] => (match r.toNat?, c.toNat? with | some r, some c => some (name, r, c) | _, _ => none)
+     | _ => none)
+  | _ => none
+
 def parseStmt (t : String) : Option Stmt :=
   match t.splitOn ":" with
-  | ["D", m, n, e] => (parseExpr e).map (fun e => .define (m == "1") n e)
+  | ["D", m, n, e] =>
+    (match parseAnnotated e with
+     | some (src, _, _) => some (.define (m == "1") n (.copy src))
+     | none => (parseExpr e).map (fun e => .define (m == "1") n e))
   | ["A", n, e] => (parseExpr e).map (fun e => .assign n e)
   | ["I", n, ix, v] => (match parseNats ix, parseInt v with | some ix, some v => some (.setIdx n ix v) | _, _ => none)
   | ["P", n, e] => (parseExpr e).map (fun e => .addAssign .add n e)
@@ -86,7 +100,27 @@ def runC05 (fields : List String) (obs : String) : String × String × String :=
   | [_, body] =>
     match (body.splitOn ";;").mapM parseStmt with
     | none => ("bad-case", "bad-case", "-")
-    | some stmts =>
+    | some stmts0 =>
+      -- an annotated define is only predicted while the source holds what its annotation says (the generator
+      -- believes it does; after a failed statement it may not): the session is judged up to the first one
+      -- whose source holds something else
+      let expects : List (Option (String × Nat × Nat)) := (body.splitOn ";;").map (fun t =>
+        match t.splitOn ":" with | ["D", _, _, e] => parseAnnotated e | _ => none)
+      let holds (ms : Store) (x : Option (String × Nat × Nat)) : Bool := match x with
+        | none => true
+        | some (src, r, c) => (match ms.lookup src with
+          | some (cell, _) => (match ms.read cell with
+            | some (.num _) => r == 0
+            | some (.mat r' c' _) => r == r' && c == c'
+            | _ => false)
+          | none => true)
+      let usable : Nat := (List.range stmts0.length).foldl (fun (acc : Nat × Store × Bool) i =>
+        if acc.2.2 then acc else
+        match stmts0[i]? with
+        | none => acc
+        | some st => if holds acc.2.1 (expects.getD i none) then (acc.1 + 1, (exec acc.2.1 st).1, false) else (acc.1, acc.2.1, true)) (0, Store.empty, false) |>.1
+      let stmts := stmts0.take usable
+      let obs := "@".intercalate ((obs.splitOn "@").take usable)
       let obsSteps := obs.splitOn "@"
       -- run model and spec step by step
       let rec go (ss : List Stmt) (ms : Store) (rs : RStore) (os : List String) (accM accS : List String)
